@@ -62,6 +62,12 @@ __CPROVER_decreases(2 * (g_n - SOFF(theCurrent)) + (fError ? 0 : 1))
 
 TEMPLATE = PRELUDE + r'''
 @@FN consumeWhitespace@@
+/* isXMLDigit (XML 1.0 production [88] Digit): the ASCII digits and many more (Arabic-Indic, Devanagari ...); the XPath Number grammar has ASCII digits only */
+bool isXMLDigit(XalanDOMChar c) __CPROVER_requires(1) __CPROVER_assigns()
+__CPROVER_ensures((__CPROVER_return_value == true || __CPROVER_return_value == false) && (IS_DIGIT(c) ==> __CPROVER_return_value == true) && (c < 0x80 && !IS_DIGIT(c) ==> __CPROVER_return_value == false)) ;
+#ifdef XV_BOUNDED
+bool isXMLDigit_body_unused;
+#endif
 @@FN consumeNumbers@@
 @@FN doValidate@@
 
@@ -131,7 +137,7 @@ UNIT = Unit(
     jobs=[
         Job('consumeWhitespace', 'h_consumeWhitespace', enforce=['consumeWhitespace'], replace=['isXMLWhitespace'],
             loop_contracts=True, reach=['entry:consumeWhitespace', 'after_loop0:consumeWhitespace'], timeout=300),
-        Job('consumeNumbers', 'h_consumeNumbers', enforce=['consumeNumbers'],
+        Job('consumeNumbers', 'h_consumeNumbers', enforce=['consumeNumbers'], replace=['isXMLDigit'],
             loop_contracts=True, reach=['entry:consumeNumbers', 'after_loop0:consumeNumbers'], timeout=300),
         Job('doValidate', 'h_doValidate', enforce=['doValidate'], replace=['consumeWhitespace', 'consumeNumbers'],
             loop_contracts=True, reach=['entry:doValidate', 'after_loop0:doValidate'], timeout=300),
